@@ -184,3 +184,18 @@
   (schematic x)
   (qpattern (memb d off n r x))
   (trigger membext))
+
+(lemma sdiv_def (axiom) (eager)
+  (vars (a Int) (b Int))
+  (hyp true)
+  (concl (= (sdiv a b) (godiv a b)))
+  (pattern (sdiv a b))
+  (trigger sdiv))
+
+; quotient bounds for a positive divisor (the nonlinear facts the coverage arguments need)
+(lemma sdiv_bounds
+  (vars (a Int) (s Int))
+  (hyp (>= s 1))
+  (concl (and (=> (>= a 0) (and (<= (* (sdiv a s) s) a) (>= (sdiv a s) 0))) (=> (< a 0) (<= (sdiv a s) 0))))
+  (pattern (sdiv a s))
+  (trigger sdiv))
